@@ -19,6 +19,7 @@ import (
 	"runtime"
 	"sort"
 	"strings"
+	"syscall"
 	"time"
 
 	"github.com/magisterquis/curlrevshell/lib/opshell"
@@ -308,6 +309,12 @@ func termSeamWorker(args []string) int {
 				add(vs)
 			}
 		}
+		if vs, err := c03ChokedRun(capPath); nil != err {
+			res.Err = err.Error()
+		} else {
+			res.Execs++
+			add(vs)
+		}
 	case "c10":
 		/* Notices carrying percent signs reach the terminal verbatim. */
 		for _, text := range c10Strings(append(append([]string{}, c10Raw...), c10Escapes...), 2) {
@@ -376,4 +383,75 @@ func runTermSeam(r *ev.Result, mode string, maxLen int, kind string) {
 	for _, v := range res.Viols {
 		r.Violate(ev.Violation{Signature: "terminal/" + v.Sig, What: v.What, Kind: kind, Replay: map[string]string{"terminal_case": v.Case}})
 	}
+}
+
+// c03ChokedRun: a terminal that stops taking bytes in the middle of a write
+// (its descriptor has been put into non-blocking mode behind the program's
+// back and its buffer is full): the write comes back short with EAGAIN.
+// Whatever the program makes of that, what the terminal has received when it
+// is read out later is a prefix of what the shell sent: nothing twice.
+func c03ChokedRun(capPath string) (viols []seamViol, err error) {
+	ts, err := newTermSessionOpts(capPath, true, nil, true)
+	if nil != err {
+		return nil, err
+	}
+	/* A pipe the runtime's poller knows nothing about (os.Pipe would make
+	it wait for room instead of reporting EAGAIN, as it does for a terminal
+	it has opened itself). */
+	var fds [2]int
+	if err := syscall.Pipe2(fds[:], syscall.O_CLOEXEC); nil != err {
+		ts.close()
+		return nil, err
+	}
+	pr, pw := os.NewFile(uintptr(fds[0]), "terminal-master"), os.NewFile(uintptr(fds[1]), "terminal")
+	defer pr.Close()
+	const fSetPipeSz = 1031
+	syscall.Syscall(syscall.SYS_FCNTL, uintptr(fds[1]), fSetPipeSz, 4096)
+	syscall.SetNonblock(fds[1], true) /* pw itself goes on believing it is a blocking file */
+	os.Stdout = pw
+	ts.start()
+	quiesce.Wait()
+	want := ""
+	for i := 0; i < 6; i++ {
+		/* (Longer than PIPE_BUF: shorter writes to a pipe are all or nothing.) */
+		s := fmt.Sprintf("<chunk %02d>%s\n", i, strings.Repeat(string(rune('a'+i)), 6000))
+		want += strings.ReplaceAll(s, "\n", "\r\n")
+		ts.och <- opshell.CLine{Plain: true, Line: s}
+	}
+	/* (No waiting for quiescence here: a program that keeps trying never
+	settles.  Too short a pause only means less has been written: still a
+	prefix.) */
+	time.Sleep(300 * time.Millisecond)
+	/* Now the terminal takes everything there is, for a while. */
+	got := make(chan string, 1)
+	go func() {
+		var sb strings.Builder
+		buf := make([]byte, 65536)
+		for {
+			n, err := pr.Read(buf)
+			sb.Write(buf[:n])
+			if nil != err {
+				break
+			}
+		}
+		got <- sb.String()
+	}()
+	/* Half a second of reading out, then the terminal is gone. */
+	time.Sleep(500 * time.Millisecond)
+	os.Stdout = ts.capture
+	pw.Close()
+	ts.close()
+	shown := ansiRE.ReplaceAllString(<-got, "")
+	if "" != os.Getenv("VERIF_DEBUG_CHOKED") {
+		fmt.Fprintf(os.Stderr, "choked: shown %d bytes, want %d, prefix %v\n", len(shown), len(want), strings.HasPrefix(want, shown))
+	}
+	if !strings.HasPrefix(want, shown) {
+		i := 0
+		for i < len(shown) && i < len(want) && shown[i] == want[i] {
+			i++
+		}
+		viols = append(viols, seamViol{Sig: "terminal-repeats-bytes/choked-terminal", Case: "choked",
+			What: fmt.Sprintf("a terminal that took only part of a write (EAGAIN) and was read out later holds %d bytes that are not a prefix of the %d bytes the shell sent: they differ from byte %d on (terminal: %q, sent: %q)", len(shown), len(want), i, trunc80(shown[max(0, i-20):]), trunc80(want[max(0, i-20):]))})
+	}
+	return viols, nil
 }
